@@ -1,8 +1,17 @@
 import TurVerif.Model.PageLocks
+import TurVerif.Lemmas.PageLocksLive
 /-!
 C36  Page write locks are mutually exclusive.
 M-code LTS model `TurVerif.PageLocks` (pinned code: `fixed = false`; repaired `try_cleanup`:
 `fixed = true`).
+
+* pinned code: `stale_cleanup_counterexample` (the property is false: two writers of one page).
+* repaired code, ALL thread counts / programs / schedules: `page_mutex` (headline), `entry_mutex`,
+  `refcount_exact`, `lock_state_exact`, `stake_is_mapped`, `table_empty_at_quiescence`,
+  `acquire_enabled_when_free`, `waiting_blocked_only_by_holder`, `no_deadlock`,
+  `step_decreases_work`, `all_acquisitions_complete`.
+  Invariant and its preservation: `Lemmas/PageLocks.lean`, `Lemmas/PageLocksInv.lean`;
+  progress: `Lemmas/PageLocksLive.lean`.
 -/
 namespace TurVerif.C36
 open TurVerif.PageLocks
@@ -31,5 +40,212 @@ theorem fixed_same_schedule_safe :
 theorem fixed_all_prefixes_safe :
     (List.range (cexSched.length + 1)).all
       (fun n => pageSafe (run (init true cexProgs) (cexSched.take n)) 7) = true := by decide
+
+/-! ### general theorems about the repaired model (`fixed = true`): all thread counts, all
+programs, all schedules.  They follow from the inductive invariant `PageLocks.Inv`
+(`Lemmas/PageLocks.lean`, preservation in `Lemmas/PageLocksInv.lean`). -/
+
+/-- the inductive invariant holds in every reachable state -/
+theorem invariant_reachable (progs : List (List Op)) (sched : List Nat) :
+    Inv (run (init true progs) sched) := inv_reachable progs sched
+
+/-- HEADLINE: for every number of threads, every program and every schedule, every page has at
+most one write-lock holder and no write-lock holder together with read-lock holders -/
+theorem page_mutex (progs : List (List Op)) (sched : List Nat) (page : Nat) :
+    pageSafe (run (init true progs) sched) page = true :=
+  pageSafe_of_inv (inv_reachable progs sched) page
+
+/-- the same, spelled out -/
+theorem page_mutex_explicit (progs : List (List Op)) (sched : List Nat) (page : Nat) :
+    let s := run (init true progs) sched
+    writersOf s page ≤ 1 ∧ (writersOf s page = 0 ∨ readersOf s page = 0) := by
+  have h := page_mutex progs sched page
+  simpa [pageSafe] using h
+
+/-- per lock entry: at most one thread in `held _ e true`, and none together with a thread in
+`held _ e false` -/
+theorem entry_mutex (progs : List (List Op)) (sched : List Nat) (e : Nat) (en : Entry) :
+    let s := run (init true progs) sched
+    s.entries[e]? = some en →
+      writerCount s e ≤ 1 ∧ (writerCount s e = 0 ∨ readerCount s e = 0) :=
+  fun he => entry_mutex_of_inv (inv_reachable progs sched) he
+
+/-- each entry's reference count equals the number of threads holding a stake in it
+(`stakeCount s e` = number of threads whose pc is acquire / waiting / held / release on entry `e`) -/
+theorem refcount_exact (progs : List (List Op)) (sched : List Nat) (e : Nat) (en : Entry) :
+    let s := run (init true progs) sched
+    s.entries[e]? = some en → en.refCount = stakeCount s e :=
+  fun he => ((inv_reachable progs sched).en e en he).rc
+
+/-- the modelled RwLock state of each entry is exactly the set of guard holders: `writer` iff one
+thread is in `held _ e true`, `readers` = number of threads in `held _ e false` -/
+theorem lock_state_exact (progs : List (List Op)) (sched : List Nat) (e : Nat) (en : Entry) :
+    let s := run (init true progs) sched
+    s.entries[e]? = some en →
+      writerCount s e = (if en.writer = true then 1 else 0) ∧ readerCount s e = en.readers ∧
+      (en.writer = true → en.readers = 0) :=
+  fun he => ⟨((inv_reachable progs sched).en e en he).wr, ((inv_reachable progs sched).en e en he).rd,
+    ((inv_reachable progs sched).en e en he).ex⟩
+
+/-- every thread with a stake in `(p, e)` goes through the entry the map currently holds for `p`;
+in particular an entry that has been removed from the map has no stake holders -/
+theorem stake_is_mapped (progs : List (List Op)) (sched : List Nat) (t : Thread) (p e : Nat) :
+    let s := run (init true progs) sched
+    t ∈ s.threads → stakeOf t.pc = some (p, e) → lookup s.map p = some e :=
+  fun ht hs => (inv_reachable progs sched).sk t ht p e hs
+
+/-- the lock table returns to empty when all guards are dropped -/
+theorem table_empty_at_quiescence (progs : List (List Op)) (sched : List Nat) :
+    let s := run (init true progs) sched
+    quiescent s = true → s.map = [] := by
+  intro s hq
+  have h : Inv s := inv_reachable progs sched
+  have hidle : ∀ t ∈ s.threads, t.pc = .idle := by
+    intro t ht
+    have := (List.all_eq_true.mp hq) t ht
+    simp only [Bool.and_eq_true, beq_iff_eq] at this
+    exact this.1
+  cases hm : s.map with
+  | nil => rfl
+  | cons x m =>
+    obtain ⟨p, e⟩ := x
+    have hmem : (p, e) ∈ s.map := by rw [hm]; exact List.mem_cons_self
+    have hlt := h.mp.2 _ hmem
+    have he : s.entries[e]? = some s.entries[e] := List.getElem?_eq_getElem hlt
+    have hrc : (s.entries[e]).refCount = 0 := by
+      rw [(h.en e _ he).rc, List.countP_eq_zero]
+      intro t ht
+      simp [hidle t ht]
+    have hz := h.zc p e _ hmem he hrc
+    have : s.threads.countP (fun t => atCleanup p e t.pc) = 0 := by
+      rw [List.countP_eq_zero]
+      intro t ht
+      simp [hidle t ht]
+    omega
+
+/-- enabledness form of "every acquisition eventually succeeds once conflicting holders release":
+a thread about to call `lock.read()/write()` always has an enabled step, and a thread parked in the
+RwLock's queue on entry `e` has an enabled step (is granted the lock) whenever no OTHER thread holds
+a write lock on `e` and — for a write request — no other thread holds a read lock on `e` -/
+theorem acquire_enabled_when_free (progs : List (List Op)) (sched : List Nat) (tid : Nat)
+    (t : Thread) (p e : Nat) (w : Bool) :
+    let s := run (init true progs) sched
+    s.threads[tid]? = some t →
+      (t.pc = .acquire p e w → (step s tid).isSome = true) ∧
+      (t.pc = .waiting p e w →
+        (∀ j t' p', j ≠ tid → s.threads[j]? = some t' → t'.pc ≠ .held p' e true) →
+        (w = true → ∀ j t' p', j ≠ tid → s.threads[j]? = some t' → t'.pc ≠ .held p' e false) →
+        (step s tid).isSome = true) := by
+  intro s ht
+  have h : Inv s := inv_reachable progs sched
+  refine ⟨?_, ?_⟩
+  · intro hpc
+    obtain ⟨en, he⟩ := entry_of_stake h ht (p := p) (e := e) (by simp [hpc])
+    unfold step
+    simp only [ht, hpc, he]
+    cases w <;> simp only [Bool.false_eq_true, if_false, if_true] <;> split <;> rfl
+  · intro hpc hnw hnr
+    obtain ⟨en, he⟩ := entry_of_stake h ht (p := p) (e := e) (by simp [hpc])
+    have o := h.en e en he
+    have hwz : s.threads.countP (fun t => heldW e t.pc) = 0 := by
+      rw [List.countP_eq_zero]
+      intro t' ht' hf
+      obtain ⟨j, hj, hjt⟩ := List.getElem_of_mem ht'
+      have hj' : s.threads[j]? = some t' := by rw [List.getElem?_eq_getElem hj, hjt]
+      by_cases hjt : j = tid
+      · subst hjt; rw [ht] at hj'; cases hj'; simp [hpc] at hf
+      · cases hq : t'.pc <;> simp [hq] at hf
+        rename_i p' e' w'
+        obtain ⟨rfl, rfl⟩ := hf
+        exact hnw j t' p' hjt hj' hq
+    have hw : en.writer = false := by
+      have := o.wr
+      rw [hwz] at this
+      cases hx : en.writer
+      · rfl
+      · rw [hx] at this; simp at this
+    unfold step
+    simp only [ht, hpc, he]
+    cases w with
+    | false => simp [hw]
+    | true =>
+      have hrz : s.threads.countP (fun t => heldR e t.pc) = 0 := by
+        rw [List.countP_eq_zero]
+        intro t' ht' hf
+        obtain ⟨j, hj, hjt⟩ := List.getElem_of_mem ht'
+        have hj' : s.threads[j]? = some t' := by rw [List.getElem?_eq_getElem hj, hjt]
+        by_cases hjt : j = tid
+        · subst hjt; rw [ht] at hj'; cases hj'; simp [hpc] at hf
+        · cases hq : t'.pc <;> simp [hq] at hf
+          rename_i p' e' w'
+          obtain ⟨rfl, rfl⟩ := hf
+          exact hnr rfl j t' p' hjt hj' hq
+      have hr : en.readers = 0 := by rw [← o.rd, hrz]
+      simp [hw, hr]
+
+/-- converse: a parked thread is blocked only by an actual conflicting holder on its entry -/
+theorem waiting_blocked_only_by_holder (progs : List (List Op)) (sched : List Nat) (tid : Nat)
+    (t : Thread) (p e : Nat) (w : Bool) :
+    let s := run (init true progs) sched
+    s.threads[tid]? = some t → t.pc = .waiting p e w → step s tid = none →
+      ∃ j t' p', j ≠ tid ∧ s.threads[j]? = some t' ∧
+        (t'.pc = .held p' e true ∨ (w = true ∧ t'.pc = .held p' e false)) := by
+  intro s ht hpc hnone
+  apply Classical.byContradiction
+  intro hc
+  have := (acquire_enabled_when_free progs sched tid t p e w ht).2 hpc
+    (fun j t' p' hj hjt hp => hc ⟨j, t', p', hj, hjt, Or.inl hp⟩)
+    (fun hw j t' p' hj hjt hp => hc ⟨j, t', p', hj, hjt, Or.inr ⟨hw, hp⟩⟩)
+  rw [hnone] at this
+  cases this
+
+/-- NO DEADLOCK: in every reachable state in which some thread has not finished its program, some
+thread has an enabled step (threads hold one page lock at a time in this model) -/
+theorem no_deadlock (progs : List (List Op)) (sched : List Nat) :
+    let s := run (init true progs) sched
+    quiescent s = false → ∃ tid, (step s tid).isSome = true :=
+  fun hq => progress_of_inv (inv_reachable progs sched)
+    (evalid_run (evalid_init true progs) sched) hq
+
+/-- every enabled step strictly decreases the remaining work `workLeft` (7 per pending operation +
+rank of the current pc), for the pinned and the repaired model alike: no execution has more than
+`workLeft (init ..)` = 7 × (number of operations) enabled steps -/
+theorem step_decreases_work (s s' : State) (tid : Nat) (hs : step s tid = some s') :
+    workLeft s' < workLeft s := PageLocks.step_decreases_work hs
+
+/-- every acquisition eventually succeeds / everything completes: every reachable state can be
+extended (by at most `workLeft` steps) to a quiescent state, where the lock table is empty.
+Together with `no_deadlock` and `step_decreases_work`: EVERY maximal execution ends, after at most
+7 × (number of operations) enabled steps, in a quiescent state with an empty table. -/
+theorem all_acquisitions_complete (progs : List (List Op)) (sched : List Nat) :
+    ∃ sched', let s := run (init true progs) (sched ++ sched')
+      quiescent s = true ∧ s.map = [] ∧
+      sched'.length ≤ workLeft (run (init true progs) sched) := by
+  obtain ⟨sched', h1, h2⟩ := completes_of_inv _ (inv_reachable progs sched)
+    (evalid_run (evalid_init true progs) sched) (Nat.le_refl _)
+  refine ⟨sched', ?_, ?_, h2⟩
+  · rw [run_append]; exact h1
+  · have := table_empty_at_quiescence progs (sched ++ sched')
+    rw [run_append] at this ⊢
+    exact this h1
+
+/-! ### sanity: the hypotheses are satisfiable, and small concrete systems -/
+
+/-- non-vacuity of `acquire_enabled_when_free`: thread 1 is parked behind writer 0, then 0 unlocks -/
+example :
+    let s := run (init true [[.write 7], [.write 7]]) [0, 0, 0, 1, 1, 1]
+    (s.threads[1]?.map (·.pc)) = some (.waiting 7 0 true) ∧ step s 1 = none ∧
+    (step (run s [0]) 1).isSome = true := by decide
+
+/-- non-vacuity of `table_empty_at_quiescence` -/
+example :
+    let s := run (init true [[.write 7], [.read 7]]) [0, 0, 0, 1, 1, 1, 0, 0, 1, 0, 1, 1, 1]
+    quiescent s = true ∧ s.map = [] ∧ s.entries.length = 1 := by decide
+
+/-- the pinned model (`fixed = false`) does NOT satisfy `table_empty_at_quiescence`-style cleanup
+safety: see `stale_cleanup_counterexample`; the invariant's clause (I2) fails there -/
+example :
+    let s := run (init false cexProgs) (cexSched.take 15)
+    (s.threads[0]?.map (·.pc)) = some (.held 7 1 true) ∧ lookup s.map 7 = none := by decide
 
 end TurVerif.C36
